@@ -58,24 +58,31 @@ def main():
         rc, o = rundemo(); out["demo_passes_without_change"] = (rc == 0); out["demo_output_without_change"] = o[-300:]
     finally:
         sh(["git", "-C", "/repo", "worktree", "remove", "--force", wt])
-    # run our checks against /repo with the patch applied
+    # run our checks against a scratch worktree with the patch applied, from a private copy of /verif
+    # (so that /repo and /verif stay usable meanwhile)
     results = {}
-    rc, o = sh(["git", "-C", "/repo", "apply", patch])
+    wt2 = tempfile.mkdtemp(prefix="wts-", dir="/tmp"); os.rmdir(wt2)
+    vcopy = tempfile.mkdtemp(prefix="verif-", dir="/tmp")
+    sh(["git", "-C", "/repo", "worktree", "add", "-q", "--detach", wt2, "HEAD"])
+    sh(["rsync", "-a", "--exclude", ".work", "--exclude", ".git", "/verif/", vcopy + "/"])
     try:
+        sh(["git", "-C", wt2, "apply", patch])
+        env = dict(ENV, VERIF_REPO=wt2)
         for p in props:
-            rc, o = sh(["./check", p, "quick"], cwd="/verif", timeout=3600)
+            pr = subprocess.run(["./check", p, "quick"], cwd=vcopy, env=env, stdout=subprocess.PIPE, stderr=subprocess.STDOUT, text=True, timeout=3600)
+            rc, o = pr.returncode, pr.stdout
             lines = [l for l in o.splitlines() if l.startswith("VIOLATION") or l.startswith("KNOWN-FINDING")]
             detail = ""
             for l in lines:
                 m = re.search(r"replay=(\S+)", l)
-                if m and os.path.exists(os.path.join("/verif", m.group(1))):
-                    rp = json.load(open(os.path.join("/verif", m.group(1))))
+                if m and os.path.exists(os.path.join(vcopy, m.group(1))):
+                    rp = json.load(open(os.path.join(vcopy, m.group(1))))
                     v = rp.get("violation") or {}
                     detail = (v.get("what") or "") or json.dumps(rp.get("no_longer_checks", ""))[:600]
             results[p] = {"exit": rc, "lines": [l for l in lines if l.startswith("VIOLATION")], "what": detail[:700], "summary": o.splitlines()[-1] if o.splitlines() else ""}
     finally:
-        sh(["git", "-C", "/repo", "checkout", "--", "."])
-        sh(["git", "-C", "/repo", "clean", "-fdq", "--", "."])
+        sh(["git", "-C", "/repo", "worktree", "remove", "--force", wt2])
+        shutil.rmtree(vcopy, ignore_errors=True)
     out["checks"] = results
     out["detected_by"] = [p for p, r in results.items() if r["exit"] == 1 and r["lines"]]
     print(json.dumps(out, indent=1))
